@@ -43,7 +43,8 @@ OBLIGATIONS = {"exhaustive-grid": 500, "shape:1xk": 20, "shape:kx1": 20,
                "diagonal-step": 100, "inlet-on-chain": 20, "cycle-through-outlet": 20,
                "area>=2": 200, "river": 200, "flowpath": 100, "relation": 500,
                "sink": 50, "offgrid": 50, "invalid-code": 50, "tight-buffer": 5,
-               "flowpath:empty-area": 5, "api-sequence": 10, "snake": 6}
+               "flowpath:empty-area": 5, "api-sequence": 10, "snake": 6,
+               "large-catchment": 4, "large-catchment:>100000-cells": 2}
 CODES = [1, 2, 4, 8, 16, 32, 64, 128, 0, 3]
 # what "an invalid code" stands for in the enumerations (3 is replaced by one of these,
 # rotating): combinations of direction bits, negative values, and valid codes with
@@ -415,6 +416,15 @@ def run(ctx):
             codes = gen_snake(nr, nc, flip)
             ctx.tag("snake")
             run_grid(ctx, codes, {"kind": "grid", "codes": codes.tolist(), "snake": True})
+    # --------------------------------------- regional-size catchments (closed form) ----
+    big = [(251, 200, "comb"), (320, 320, "diag"), (200, 251, "diag"), (317, 316, "comb")]
+    if ctx.tier == "thorough":
+        big += [(1000, 1001, "diag"), (223, 449, "comb"), (708, 709, "comb"),
+                (1500, 700, "diag")]
+    for j, (nr, nc, variant) in enumerate(big):
+        if ctx.nshards > 1 and j % ctx.nshards != ctx.shard % ctx.nshards:
+            continue
+        run_large(ctx, nr, nc, variant)
     # ------------------------------------------------------------ random part ----
     rng = ctx.rng(2)
     nrand = 12 if ctx.tier == "quick" else 600
@@ -459,6 +469,116 @@ def run(ctx):
                 check_area(ctx, cat, model, o, [], dict(case, outlet=o, inlets=[],
                                                         nval=int(nval)),
                            nval=max(1, int(nval)), cyc=False)
+
+
+def run_large(ctx, nr, nc, variant):
+    """A regional-size catchment with a closed-form answer: every cell drains to the
+    bottom-left corner, westwards then southwards ('comb') or south-westwards as long
+    as possible ('diag'). Reference: the whole grid, each cell once; the path of cell
+    (r, c) has a = c steps to the west and b = nr-1-r steps to the south, min(a, b)
+    of them merged into diagonal steps in the 'diag' variant."""
+    g = mods()
+    codes = np.full((nr, nc), 16 if variant == "comb" else 8, dtype=np.int64)
+    codes[:, 0] = 4
+    codes[nr - 1, :] = 16
+    codes[nr - 1, 0] = 0
+    n = nr * nc
+    outlet = (nr - 1) * nc
+    case = {"kind": "large", "nrows": nr, "ncols": nc, "variant": variant}
+    ctx.evaluated()
+    ctx.tag("large-catchment")
+    if n > 100000:
+        ctx.tag("large-catchment:>100000-cells")
+    fd = g.Grid("fd", nc, nr, dtype=np.int64)
+    fd.data = codes
+    cat = g.Catchment("big", fd)
+    ctx.api("delineate_area")
+    try:
+        # buffer sizes as a user has them: the default, or the size of the grid
+        if variant == "comb":
+            cat.delineate_area(outlet)
+        else:
+            cat.delineate_area(outlet, nval=n + 5)
+        area = np.asarray(cat.idxcells_area).astype(np.int64)
+        filled = np.asarray(cat.idxcells_area_filled).astype(np.int64)
+    except Exception as e:
+        ctx.check("large.area-runs", False, "delineate_area|raises|large", case,
+                  {"exc": repr(e)[:300]})
+        return
+    ctx.check("large.area", len(area) == n and
+              bool(np.array_equal(np.sort(area), np.arange(n))),
+              "delineate_area|area|large", case,
+              lambda: {"listed": int(len(area)), "distinct": int(len(np.unique(area))),
+                       "expected": n})
+    ctx.check("large.filled", len(filled) == len(np.unique(filled)) and
+              bool(np.isin(np.arange(n), filled).all()), "delineate_area|filled|large",
+              case, lambda: {"listed": int(len(filled))})
+    ctx.api("compute_flowpathlengths")
+    try:
+        cat.compute_flowpathlengths()
+        vals = np.asarray(cat.flowpathlengths.values, dtype=float)
+    except Exception as e:
+        ctx.check("large.flowpath-runs", False, "flowpathlengths|raises|large", case,
+                  {"exc": repr(e)[:300]})
+        return
+    ok = vals.shape == (len(area), 3)
+    bad = None
+    if ok:
+        st = vals[:, 0].astype(np.int64)
+        r_, c_ = st // nc, st % nc
+        a_, b_ = c_, nr - 1 - r_
+        if variant == "comb":
+            exp = (a_ + b_).astype(float)
+        else:
+            exp = np.minimum(a_, b_) * math.sqrt(2) + np.abs(a_ - b_)
+            ctx.tag("diagonal-step")
+        notout = st != outlet
+        wrong = notout & ((np.abs(vals[:, 2] - exp) > 1e-7) | (vals[:, 1] != outlet))
+        ok = bool(np.array_equal(np.sort(st), np.arange(n))) and not wrong.any()
+        if wrong.any():
+            i = int(np.where(wrong)[0][0])
+            bad = [int(st[i]), int(vals[i, 1]), float(vals[i, 2]), float(exp[i]),
+                   int(wrong.sum())]
+    ctx.check("large.flowpath", ok, "flowpathlengths|length|large", case,
+              lambda: {"start,end,length,expected,nwrong": bad,
+                       "shape": list(vals.shape)})
+    # the longest river: from the top-right corner
+    start = nc - 1
+    ctx.api("delineate_river")
+    try:
+        riv = g.delineate_river(fd, start, nval=n + 3)
+        cells = riv["idxcell"].values.astype(np.int64)
+        dist = riv["dist"].values.astype(float)
+    except Exception as e:
+        ctx.check("large.river-runs", False, "delineate_river|raises|large", case,
+                  {"exc": repr(e)[:300]})
+        return
+    if variant == "comb":
+        chain = np.concatenate([np.arange(nc - 1, -1, -1), np.arange(1, nr) * nc])
+        expd = np.arange(len(chain), dtype=float)
+    else:
+        k = min(nc - 1, nr - 1)
+        dg = np.arange(0, k + 1)
+        chain = list(dg * nc + (nc - 1 - dg))
+        expd = list(dg * math.sqrt(2))
+        r, c = k, nc - 1 - k
+        while (r, c) != (nr - 1, 0):
+            if r == nr - 1:
+                c -= 1
+            else:
+                r += 1
+            chain.append(r * nc + c)
+            expd.append(expd[-1] + 1)
+        chain, expd = np.array(chain), np.array(expd)
+    ctx.tag("river")
+    ctx.check("large.river", len(cells) == len(chain) and
+              bool(np.array_equal(cells, chain)) and
+              bool(np.allclose(dist, expd, rtol=0, atol=1e-7)),
+              "delineate_river|chain|large", case,
+              lambda: {"len": int(len(cells)), "expected_len": int(len(chain)),
+                       "last_dist": float(dist[-1]) if len(dist) else None,
+                       "expected_last": float(expd[-1])})
+    ctx.nontrivial("large", nr, nc, variant)
 
 
 def gen_snake(nr, nc, flip=False):
@@ -562,6 +682,8 @@ def run_api_sequence(ctx, codes, case, rng):
 
 
 def replay(ctx, case):
+    if case.get("kind") == "large":
+        return run_large(ctx, case["nrows"], case["ncols"], case["variant"])
     if case.get("kind") == "apiseq":
         return run_api_sequence(ctx, case["codes"], case,
                                 np.random.default_rng(int(case["seed"])))
